@@ -213,6 +213,12 @@ def parse_op(text):
                             pos=pos,
                             message="Only named axes, unnamed axes, and flattened axes are allowed as operands of a concatenation operator ('+').\n%EXPR%",
                         )
+                    bracketed_operands = [o for o in operands if any(isinstance(n, Brackets) for n in o.nodes())]
+                    if len(bracketed_operands) > 0:
+                        pos = []
+                        for operand in bracketed_operands:
+                            pos.extend(range(operand.begin_pos, operand.end_pos))
+                        raise SyntaxError(text, pos=pos, message="Brackets are not allowed inside operands of a concatenation operator ('+').\n%EXPR%")
                     if not is_parent_composition:
                         raise SyntaxError(text, pos=range(begin_pos, end_pos), message="Concatenated axes must be wrapped in parentheses.\n%EXPR%")
                     return ConcatenatedAxis.create(operands, begin_pos, end_pos)
